@@ -631,6 +631,13 @@ func (s *v4Server) RemoveStaticLease(l *dhcpsvc.Lease) (err error) {
 	s.leasesLock.Lock()
 	defer s.leasesLock.Unlock()
 
+	if found, ok := s.ipIndex[l.IP]; ok && !found.IsStatic {
+		// A dynamic lease belongs to its client and must not be removed as
+		// a static one, since its address would then be leased again while
+		// the client still uses it.
+		return fmt.Errorf("lease for ip %s is not static", l.IP)
+	}
+
 	return s.rmLease(l)
 }
 
